@@ -176,6 +176,7 @@ inductive Visitor where
   | ExprSynthesizer
   | ExprChecker
   | AssignTarget
+  | ModifierItem
   | aux
   deriving DecidableEq, Repr
 
@@ -509,6 +510,8 @@ def visits : List (Visitor × Kind × VisitHow) := [
   (.ExprSynthesizer, .Subscript, .explicit),
   (.ExprSynthesizer, .Tuple, .explicit),
   (.ExprSynthesizer, .UnaryOp, .explicit),
+  (.ModifierItem, .Call, .explicit),
+  (.ModifierItem, .Name, .explicit),
   (.StmtChecker, .AnnAssign, .explicit),
   (.StmtChecker, .Assign, .explicit),
   (.StmtChecker, .AugAssign, .explicit),
@@ -608,6 +611,10 @@ def reads : List (Visitor × Kind × Field × ReadHow) := [
   (.ExprSynthesizer, .Tuple, .f_elts, .read),
   (.ExprSynthesizer, .UnaryOp, .f_op, .read),
   (.ExprSynthesizer, .UnaryOp, .f_operand, .read),
+  (.ModifierItem, .Call, .f_args, .read),
+  (.ModifierItem, .Call, .f_func, .read),
+  (.ModifierItem, .Call, .f_keywords, .guard),
+  (.ModifierItem, .Name, .f_id, .read),
   (.StmtChecker, .AnnAssign, .f_annotation, .read),
   (.StmtChecker, .AnnAssign, .f_target, .read),
   (.StmtChecker, .AnnAssign, .f_value, .read),
